@@ -22,6 +22,8 @@ pub fn units(tier: &str, _seed: u64) -> Vec<String> {
         "-1/U:ACS:TERMOSOLAR;-1/P:TERMOSOLAR;-1/U:ACS:EAMBIENTE",
         // other kinds are kept untouched (output, demand, electricity production, non-EPB use)
         "1/U:CAL:GASNATURAL;1/O:CAL;D:CAL;D:CAL;P:EL_INSITU;U:NEPB:ELECTRICIDAD;1/U:CAL:TERMOSOLAR#con comentario",
+        // comments that contain the comment delimiter, on every kind of line
+        "2/U:CAL:GASNATURAL#caldera, rend. 0.9 {HASH} dato de fabricante;2/O:CAL#salida {HASH} medida;2/X#aux {HASH} bomba;P:EL_INSITU#PV {HASH} cubierta",
     ];
     let mut v = vec![];
     for s in shapes {
@@ -52,10 +54,10 @@ fn tags(c: &Energy) -> String {
 fn line_tags(l: &LineT) -> String {
     let id = l.id.unwrap_or(0);
     match l.kind {
-        'U' => format!("U:{}:{}:{}:{}", id, l.a, l.b, l.comment),
-        'P' => format!("P:{}:{}:{}", id, l.a, l.comment),
-        'X' => format!("X:{}:{}", id, l.comment),
-        'O' => format!("O:{}:{}:{}", id, l.a, l.comment),
+        'U' => format!("U:{}:{}:{}:{}", id, l.a, l.b, l.comment.replace("{HASH}", "#")),
+        'P' => format!("P:{}:{}:{}", id, l.a, l.comment.replace("{HASH}", "#")),
+        'X' => format!("X:{}:{}", id, l.comment.replace("{HASH}", "#")),
+        'O' => format!("O:{}:{}:{}", id, l.a, l.comment.replace("{HASH}", "#")),
         _ => String::new(),
     }
 }
